@@ -302,5 +302,69 @@ theorem panelForce_rot (surfs : List (Surf ℝ)) (f f' : Flow ℝ) (H : RotHyp R
     simp only [influence_rot h surfs f f' H, ← h.smul]
     rw [V3_sumTo_rot h, ← h.add, h.cross, h.smul]
 
+/-! ### the same with explicitly given onset velocities (used by the compressible group with rotation rates) -/
+
+/-- the geometric part of the hypotheses: no ground effect, `R` commutes with the `y`-mirror for symmetric surfaces, the wake
+direction of `f'` is the rotated one of `f` -/
+structure RotGeo (R : V3 ℝ → V3 ℝ) (surfs : List (Surf ℝ)) (f f' : Flow ℝ) : Prop where
+  ground : ∀ s ∈ surfs, s.ground = false
+  mirror : ∀ s ∈ surfs, s.sym = true → ∀ v, R (mirrorY v) = mirrorY (R v)
+  wake : wakeDir f'.alpha = R (wakeDir f.alpha)
+
+theorem influence_rotG (surfs : List (Surf ℝ)) (f f' : Flow ℝ) (H : RotGeo R surfs f f') (p : V3 ℝ) (n : ℕ) :
+    influence (surfs.map (mapSurf R)) f' (R p) n = R (influence surfs f p n) := by
+  unfold influence
+  rw [locate_map (mapSurf R) (fun _ => rfl) (fun _ => rfl)]
+  cases hl : locate surfs n with
+  | none => exact h.zero.symm
+  | some t =>
+    obtain ⟨s, i, j⟩ := t
+    have hs := locate_mem surfs n s i j hl
+    simp only [Option.map_some]
+    rw [vortexMesh_rot h s (H.ground s hs) (H.mirror s hs) (deg2rad f.alpha) (deg2rad f'.alpha) f.h f'.h]
+    exact velMtx_rot h s (H.ground s hs) f.alpha f'.alpha H.wake _ p i j
+
+theorem aic_rotG (surfs : List (Surf ℝ)) (f f' : Flow ℝ) (H : RotGeo R surfs f f') (m n : ℕ) :
+    aic (surfs.map (mapSurf R)) f' m n = aic surfs f m n := by
+  unfold aic
+  rw [locate_map (mapSurf R) (fun _ => rfl) (fun _ => rfl)]
+  cases hl : locate surfs m with
+  | none => rfl
+  | some t =>
+    obtain ⟨s, i, j⟩ := t
+    simp only [Option.map_some]
+    rw [collPt_rot h, influence_rotG h surfs f f' H, normal_rot h, h.dot]
+
+/-- panel forces rotate with the configuration when the onset velocities do -/
+theorem panelForceWith_rot (surfs : List (Surf ℝ)) (f f' : Flow ℝ) (H : RotGeo R surfs f f') (hrho : f'.rho = f.rho)
+    (on on' : ℕ → V3 ℝ) (hon : ∀ m, on' m = R (on m)) (gamma : ℕ → ℝ) (m : ℕ) :
+    panelForceWith (surfs.map (mapSurf R)) f' on' gamma m = R (panelForceWith surfs f on gamma m) := by
+  unfold panelForceWith
+  rw [horseshoe_map, locate_map (mapSurf R) (fun _ => rfl) (fun _ => rfl), totalPanels_map (mapSurf R) (fun _ => rfl)]
+  cases hl : locate surfs m with
+  | none => exact h.zero.symm
+  | some t =>
+    obtain ⟨s, i, j⟩ := t
+    simp only [Option.map_some]
+    rw [hon m, forcePt_rot h, boundVec_rot h, hrho]
+    simp only [influence_rotG h surfs f f' H, ← h.smul]
+    rw [V3_sumTo_rot h, ← h.add, h.cross, h.smul]
+
+omit h in
+/-- onset velocity at the collocation point of global panel `k` -/
+noncomputable def onsetAt (surfs : List (Surf ℝ)) (f : Flow ℝ) (k : ℕ) : V3 ℝ :=
+  match locate surfs k with
+  | none => 0
+  | some (s, i, j) => onset f (collPt s i j)
+
+omit h in
+/-- `panelForce` is `panelForceWith` the onset velocities at the collocation points -/
+theorem panelForce_eq_with (surfs : List (Surf ℝ)) (f : Flow ℝ) (gamma : ℕ → ℝ) (m : ℕ) :
+    panelForce surfs f gamma m = panelForceWith surfs f (onsetAt surfs f) gamma m := by
+  unfold panelForce panelForceWith forcePtVelocity onsetAt
+  cases hl : locate surfs m with
+  | none => rfl
+  | some t => obtain ⟨s, i, j⟩ := t; simp only [hl]
+
 end VLM
 end OAS
